@@ -188,17 +188,51 @@ Theorem C01_bond_le_rows_current :
 Proof. exact bond_le_rows_current. Qed.
 Print Assumptions C01_bond_le_rows_current.
 
-(* PARTIAL (left parts of the ORIGINAL table): proved for the first cut only.  Full statement, not proved:
-     forall j < length ws, forall ls0, (forall x, In x t0 -> In (firstn (S (S j)) (fst x)) ls0) ->
-       length (nth j (fst (sweep R iszero ws t0)) []) <= length ls0
-   (needs Koenig's matching between the selected columns and unselected rows at every earlier cut; it is
-   checked on the implementation's output at every cut by the harness instead). *)
-Theorem C01_bond_le_left_parts_partial :
-  forall (R : CRing) (iszero : R -> bool) (ws : list (wit R)) (t0 : table R) (ls0 : list key),
-  min_sweep R ws t0 -> 0 < length ws -> (forall x, In x t0 -> In (firstn 2 (fst x)) ls0) ->
-  length (nth 0 (fst (sweep R iszero ws t0)) []) <= length ls0.
-Proof. exact bond_le_left_parts_partial. Qed.
-Print Assumptions C01_bond_le_left_parts_partial.
+(* left parts of the ORIGINAL table, EVERY cut (third wave; replaces the earlier `_partial` first-cut statement).
+   (a) relative to a Koenig certificate at every step (a matching of the incidence relation with as many edges as
+       the cover has vertices -- what bipartite_vertex_cover computes internally); invariant `left_inv`: the row keys
+       of the table at site i map injectively to left parts of original terms whose right remainder is the row's
+       column key;
+   (b) for MINIMUM covers, the certificate being obtained from C20's Koenig theory (Proofs/CoverProofs.v) through the
+       index graph of the incidence relation (`min_cover_has_cert`). *)
+Theorem C01_bond_le_left_parts_cert :
+  forall (R : CRing) (iszero : R -> bool) (ws : list (wit R)) (t0 : table R),
+  (forall x0, In x0 t0 -> S (length ws) <= length (fst x0)) -> cert_sweep R ws t0 ->
+  forall (j : nat) (ls0 : list key), j < length ws ->
+    (forall x0, In x0 t0 -> In (firstn (S (S j)) (fst x0)) ls0) ->
+    length (nth j (fst (sweep R iszero ws t0)) []) <= length ls0.
+Proof. exact bond_le_left_parts. Qed.
+Print Assumptions C01_bond_le_left_parts_cert.
+
+Theorem C01_min_cover_has_cert :
+  forall (R : CRing) (t : table R) (rs cs : list key),
+  covers R t rs cs -> NoDup rs -> NoDup cs -> is_min_cover R t rs cs -> exists mt, matching_cert R t rs cs mt.
+Proof. exact min_cover_has_cert. Qed.
+Print Assumptions C01_min_cover_has_cert.
+
+Theorem C01_bond_le_left_parts :
+  forall (R : CRing) (iszero : R -> bool) (ws : list (wit R)) (t0 : table R),
+  (forall x0, In x0 t0 -> S (length ws) <= length (fst x0)) -> min_sweep_nd R ws t0 ->
+  forall (j : nat) (ls0 : list key), j < length ws ->
+    (forall x0, In x0 t0 -> In (firstn (S (S j)) (fst x0)) ls0) ->
+    length (nth j (fst (sweep R iszero ws t0)) []) <= length ls0.
+Proof. exact bond_le_left_parts_min. Qed.
+Print Assumptions C01_bond_le_left_parts.
+
+(* the boolean certificate check evaluated by the tie (matchings computed by the harness for every logged cover) *)
+Theorem C01_cert_check_sound :
+  forall (R : CRing) (ws : list (wit R)) (mts : list (list (key * key))) (t : table R),
+  cert_sweepb R ws mts t = true -> cert_sweep R ws t.
+Proof. exact cert_sweepb_sound. Qed.
+Print Assumptions C01_cert_check_sound.
+
+(* in a cover with a certificate every selected column is matched to an unselected row *)
+Theorem C01_cert_partner_col :
+  forall (R : CRing) (t : table R) (rsel csel : list key) (mt : list (key * key)),
+  covers R t rsel csel -> NoDup rsel -> NoDup csel -> matching_cert R t rsel csel mt ->
+  forall c, In c csel -> exists r, In (r, c) mt /\ ~ In r rsel.
+Proof. exact cert_partner_col. Qed.
+Print Assumptions C01_cert_partner_col.
 
 (* ================================================================== second wave: quantum-number labels (feeds C06) *)
 (* all rows of the (deduplicated) term table have one entry per site and the same total charge q, the
@@ -221,6 +255,29 @@ Theorem C01_qn_check_sound :
   forall (R : CRing) (ws : list (wit R)) (t : table R), qn_sweepb R ws t = true -> qn_sweep R ws t.
 Proof. exact qn_sweepb_sound. Qed.
 Print Assumptions C01_qn_check_sound.
+
+(* ================================================================== third wave: swap_site with swap_jw = True (for C17) *)
+(* The Jordan-Wigner rule is ABSTRACT: phi (p, q) = (p', q', c) for p = operator index on the old SECOND site
+   (new first site), q = operator index on the old FIRST site; p', q' the indices under which the produced words
+   are interned, c the sign.  nprim' >= nprim is the number of primary operators after interning (labels of the
+   right bond are nprim' + i).  Strings are written latest site first, so the new two-site string is q' :: p' :: l
+   and the old one p :: q :: l.  `dom` = any duplicate-free list containing the pairs (p, q) that occur in the
+   expanded two-site table. *)
+Theorem C01_swap_jw_sound :
+  forall (R : CRing) (iszero : R -> bool), (forall x, iszero x = true -> x = r0 R) ->
+  forall (nprim nprim' : nat) (phi : nat * nat -> nat * nat * R) (b2 b3 nb2 nb3 : bond R)
+         (ws : list (wit R)) (dom : list (nat * nat)),
+  nprim <= nprim' ->
+  swap_site_jw R iszero nprim nprim' phi b2 b3 ws = Some (nb2, nb3) ->
+  sweep_ok R iszero ws (map (jw_row R phi (nprim' - nprim)) (dedup R iszero (swap_table R nprim b2 b3))) ->
+  NoDup dom -> pairs_in R (swap_table R nprim b2 b3) dom ->
+  forall (D1 : den R) (i p' q' : nat) (l : list nat), i < length b3 ->
+    dnext R (dnext R D1 nb2) nb3 i (q' :: p' :: l)
+    = SymMpo.lsum R dom (fun pq => if pair_eqb (fst (phi pq)) (p', q')
+                                   then rmul R (snd (phi pq)) (dnext R (dnext R D1 b2) b3 i (fst pq :: snd pq :: l))
+                                   else r0 R).
+Proof. exact swap_jw_sound. Qed.
+Print Assumptions C01_swap_jw_sound.
 
 (* ---- the instances the tie executes satisfy the contract of the zero test *)
 Theorem C01_instances_ok :
@@ -306,3 +363,26 @@ Proof.
   - intros rs cs H. specialize (H _ (or_introl eq_refl)). unfold cover_size. cbn [length].
     destruct H as [H|H]; [destruct rs as [|r0 rs]|destruct cs as [|c0 cs]]; try (destruct H; fail); cbn [length]; lia.
 Qed.
+
+(* 8. swap_site_jw with the trivial rule (identity, sign 1) coincides with swap_site on example 5's data,
+      and with a rule that maps (0,2) -> (2,0) with sign -1 it still returns *)
+Example C01_ex_swap_jw :
+  swap_site_jw ZRing z_zero 3 3 (fun pq => (fst pq, snd pq, 1%Z))
+     [[([0; 2], 1%Z)]; [([1; 2], 3%Z); ([2; 0], 4%Z)]] [[([0; 0], 2%Z); ([1; 1], 1%Z)]]
+     [WG ZRing [] [[0; 3; 0]; [2; 3; 0]]; WG ZRing [] [[3; 0]]; WG ZRing [] [[0]]]
+  = swap_site ZRing z_zero 3 [[([0; 2], 1%Z)]; [([1; 2], 3%Z); ([2; 0], 4%Z)]] [[([0; 0], 2%Z); ([1; 1], 1%Z)]]
+     [WG ZRing [] [[0; 3; 0]; [2; 3; 0]]; WG ZRing [] [[3; 0]]; WG ZRing [] [[0]]]
+  /\ exists r, swap_site_jw ZRing z_zero 3 5 (phi_of_table ZRing [((0, 2), (4, 3, (-1)%Z))])
+     [[([0; 2], 1%Z)]; [([1; 2], 3%Z); ([2; 0], 4%Z)]] [[([0; 0], 2%Z); ([1; 1], 1%Z)]]
+     [WG ZRing [] [[3; 5; 0]; [2; 5; 0]; [0; 5; 0]]; WG ZRing [] [[5; 0]]; WG ZRing [] [[0]]] = Some r.
+Proof. split; [vm_compute; reflexivity|]. eexists. vm_compute. reflexivity. Qed.
+
+(* 9. Koenig certificates for the covers of example 1 (docstring table): site 0 three rows matched to three columns,
+      site 1 one row + one column matched to two edges, site 2 the column matched to one edge *)
+Example C01_ex_cert :
+  cert_sweepb ZRing ex1_ws
+    [[([0; 1], [2; 0; 0]); ([0; 0], [2; 1; 0]); ([0; 2], [0; 1; 0])];
+     [([0; 2], [0; 0]); ([1; 2], [1; 0])];
+     [([0; 0], [0])]]
+    (extend ZRing (terms_to_table ZRing z_zero ex1_terms 0%Z [0; 0; 0])) = true.
+Proof. vm_compute. reflexivity. Qed.
